@@ -104,6 +104,19 @@ var likely = map[channel.Phase][]string{
 
 func rnd(r *kernel.Rand) int64 { return int64(r.Uint64() >> 2) }
 
+// verMode picks the version of a state that the machine takes without
+// validation (forced update, progression): mostly the successor's, but the
+// machine also accepts the current version again (the client forces the final
+// form of the current state when a virtual channel is settled), an older or a
+// much later one.
+func verMode(rv int64) string {
+	vr := kernel.NewRand(kernel.Derive(uint64(rv), "ver"))
+	if !vr.Bool(0.3) {
+		return "next"
+	}
+	return []string{"same", "same", "lower", "higher"}[vr.Intn(4)]
+}
+
 func mkStep(r *kernel.Rand, prop, op string, c *chn, nch int) kernel.Step {
 	ch := c.i
 	switch op {
@@ -143,7 +156,8 @@ func mkStep(r *kernel.Rand, prop, op string, c *chn, nch int) kernel.Step {
 		if r.Bool(0.15) {
 			k = "final"
 		}
-		return kernel.St("force", "ch", ch, "kind", k, "r", rnd(r))
+		rv := rnd(r)
+		return kernel.St("force", "ch", ch, "kind", k, "r", rv, "ver", verMode(rv))
 	case "addsig":
 		k := "correct"
 		if r.Bool(0.25) {
@@ -161,7 +175,10 @@ func mkStep(r *kernel.Rand, prop, op string, c *chn, nch int) kernel.Step {
 			}
 		}
 		return kernel.St("addsig", "ch", ch, "idx", idx, "kind", k, "r", rnd(r))
-	case "set-progressing", "set-progressed", "open":
+	case "set-progressing", "set-progressed":
+		rv := rnd(r)
+		return kernel.St(op, "ch", ch, "r", rv, "ver", verMode(rv))
+	case "open":
 		return kernel.St(op, "ch", ch, "r", rnd(r))
 	}
 	return kernel.St(op, "ch", ch)
@@ -172,6 +189,9 @@ func (e Engine) Generate(prop, tier string, run int, seed uint64) *kernel.Scenar
 	sc := &kernel.Scenario{Property: prop, Config: map[string]int64{}}
 	var nch, length int
 	var wrongPhase, stick float64
+	if kernel.NewRand(kernel.Derive(seed, "addr-style")).Bool(0.3) {
+		sc.Config["addr_style"] = 1 // wire identities that spell store-key syntax
+	}
 	switch prop {
 	case "C10":
 		store, mode := c10Kind(tier, run)
